@@ -140,7 +140,9 @@ def check(prop, tier):
     mc = run_mc(wd, tier)
     log("[mc] Notary %s" % mc)
     sims = simulate(wd, 120 if tier == "quick" else 1500, 22, rng.randint(1, 10 ** 6))
-    behaviours = [{"id": "C16-%d" % i, "ops": ops} for i, ops in enumerate(sims + directed() + directed_slow())]
+    # the behaviours that wait for the 20 s read throttle to lapse take over a minute: thorough tier only
+    extra = directed_slow() if tier == "thorough" else []
+    behaviours = [{"id": "C16-%d" % i, "ops": ops} for i, ops in enumerate(sims + directed() + extra)]
     log("[gen] %d behaviours" % len(behaviours))
     violations, nev, calls = drive_validate(wd, drivebin, behaviours, INV)
     kv, _, _ = drive_validate(os.path.join(wd, "kf"), drivebin, [{"id": "C16-witness-F11", "ops": WITNESS_F11}],
